@@ -56,10 +56,12 @@ package broker
 //@   modifies nothing
 //@ interface Session.SavePacket(dir session.Direction, pkt packet.Generic) (err error)
 //@   requires [pkt] pkt != nil
+//@   requires [distinct-object] !storedobj[payload(pkt)]
+//@   ensures [kept-by-reference] storedobj == old(storedobj)[payload(pkt) := true]
 //@   ensures [saved] err == nil ==> saved[dir][idOf(pkt)] == typecode(pkt)
 //@   ensures [others] err == nil ==> forall d int, i int {saved[d][i]} :: d != dir || i != idOf(pkt) ==> saved[d][i] == old(saved[d][i])
 //@   ensures [fail] err != nil ==> saved == old(saved)
-//@   modifies saved
+//@   modifies saved, storedobj
 //@ interface Session.LookupPacket(dir session.Direction, id packet.ID) (pkt packet.Generic, err error)
 //@   ensures [found] err == nil ==> typecode(pkt) == saved[dir][id] && (pkt == nil <==> saved[dir][id] == 0)
 //@   ensures [obj] err == nil && pkt != nil ==> as(pkt, *packet.Publish) != nil && idOf(pkt) == id
@@ -239,25 +241,26 @@ package broker
 //@   ensures [one-token] old(dtok) - 1 <= dtok && dtok <= old(dtok)
 //@   ensures [incoming] old(incoming_ok()) ==> incoming_ok()
 //@   ensures [others] err == nil ==> forall d int, i int {saved[d][i]} :: d != 1 || i != id ==> saved[d][i] == old(saved[d][i])
-//@   modifies saved, dtok, nclose, tdying[c.tomb]
+//@   modifies saved, dtok, nclose, tdying[c.tomb], storedobj
 //
 //@ func (c *Client) processPubrec(id packet.ID) (err error)
 //@   requires [client] connected(c)
 //@   ensures [pubrel] err == nil ==> saved[1][id] == 6 && nsent[6] == old(nsent[6]) + 1 && lastid[6] == id
 //@   ensures [no-connack] nsent[2] == old(nsent[2]) && nsentall <= old(nsentall) + 1
 //@   ensures [incoming] old(incoming_ok()) ==> incoming_ok()
-//@   modifies saved, nsent, nsentall, sentseq, lastid, connack_sp, connack_code, nnodup, npubq, nclose, tdying[c.tomb]
+//@   modifies saved, nsent, nsentall, sentseq, lastid, connack_sp, connack_code, nnodup, npubq, nclose, tdying[c.tomb], storedobj
 //
 //@ func (c *Client) processPublish(publish *packet.Publish) (err error)
 //@   requires [client] connected(c)
 //@   requires [pkt] publish != nil && publish.Message.QOS <= 2 && (publish.Message.QOS > 0 ==> publish.ID != 0)
+//@   requires [unstored] !storedobj[publish]
 //@   ensures [qos2-recorded-then-rec] err == nil && publish.Message.QOS == 2 ==> saved[0][publish.ID] == 3 && nsent[5] == old(nsent[5]) + 1 && lastid[5] == publish.ID && npublish == old(npublish)
 //@   ensures [handed-on] err == nil && publish.Message.QOS <= 1 ==> npublish == old(npublish) + 1 && pubmsg == publish.Message
 //@   ensures [ack-closure] err == nil && publish.Message.QOS == 1 ==> puback != 0
 //@   ensures [no-direct-ack] nsent[4] == old(nsent[4]) && nsent[7] == old(nsent[7]) && nqueued == old(nqueued)
 //@   ensures [no-connack] nsent[2] == old(nsent[2]) && nsentall <= old(nsentall) + 1
 //@   ensures [incoming] old(incoming_ok()) ==> incoming_ok()
-//@   modifies saved, nsent, nsentall, sentseq, lastid, connack_sp, connack_code, nnodup, npubq, npublish, pubmsg, puback, ptok, nclose, tdying[c.tomb], ptry
+//@   modifies saved, nsent, nsentall, sentseq, lastid, connack_sp, connack_code, nnodup, npubq, npublish, pubmsg, puback, ptok, nclose, tdying[c.tomb], ptry, storedobj
 //
 //@ func (c *Client) processPubrel(id packet.ID) (err error)
 //@   requires [client] connected(c)
@@ -283,7 +286,7 @@ package broker
 //@ func (c *Client) acker() (err error)
 //@   requires [client] connected(c)
 //@   ensures [err] err != nil
-//@   modifies saved, nsent, nsentall, sentseq, lastid, connack_sp, connack_code, nnodup, npubq, ptok, stok, stry, ptry, nclose, tdying[c.tomb]
+//@   modifies saved, nsent, nsentall, sentseq, lastid, connack_sp, connack_code, nnodup, npubq, ptok, stok, stry, ptry, nclose, tdying[c.tomb], storedobj
 //@   loop 1 invariant [tokens-returned] stry - old(stry) == (nsent[9] - old(nsent[9])) + (nsent[11] - old(nsent[11])) && ptry - old(ptry) == (nsent[4] - old(nsent[4])) + (nsent[7] - old(nsent[7]))
 //
 // dequeuer: tokens held by this invocation are never fewer than the QoS>0
@@ -294,7 +297,7 @@ package broker
 //@   requires [client] connected(c)
 //@   requires [ghost-init] dtok == 0 && npubq == 0
 //@   ensures [err] err != nil
-//@   modifies saved, dtok, dtry, ndequeue, nsent, nsentall, sentseq, lastid, connack_sp, connack_code, nnodup, npubq, nclose, tdying[c.tomb]
+//@   modifies saved, dtok, dtry, ndequeue, nsent, nsentall, sentseq, lastid, connack_sp, connack_code, nnodup, npubq, nclose, tdying[c.tomb], storedobj
 //@   loop 1 invariant [window] dtok >= npubq
 //
 //@ func (c *Client) processConnect(pkt *packet.Connect) (err error)
@@ -327,13 +330,14 @@ package broker
 //@   requires [client] connected(c)
 //@   requires [pkt] pkt != nil && typecode(pkt) != 0 && as(pkt, *packet.Publish) != nil
 //@   requires [publish] istype(pkt, *packet.Publish) ==> as(pkt, *packet.Publish).Message.QOS <= 2 && (as(pkt, *packet.Publish).Message.QOS > 0 ==> as(pkt, *packet.Publish).ID != 0)
+//@   requires [unstored] istype(pkt, *packet.Publish) ==> !storedobj[as(pkt, *packet.Publish)]
 //@   requires [incoming] incoming_ok()
 //@   ensures [unexpected] typecode(pkt) == 1 || typecode(pkt) == 2 || typecode(pkt) == 9 || typecode(pkt) == 11 || typecode(pkt) == 13 ==> err != nil && nsentall == old(nsentall) && npublish == old(npublish) && nsubscribe == old(nsubscribe) && nunsubscribe == old(nunsubscribe) && saved == old(saved) && nqueued == old(nqueued)
 //@   ensures [pingresp] typecode(pkt) == 12 && err == nil ==> nsent[13] == old(nsent[13]) + 1 && nsentall == old(nsentall) + 1
 //@   ensures [one-reply] nsentall <= old(nsentall) + 1 && nsent[2] == old(nsent[2])
 //@   ensures [incoming-kept] incoming_ok()
 //@   ensures [disconnect] typecode(pkt) == 14 ==> err != nil && c.will == nil && c.state == 2
-//@   modifies c.will, c.state, saved, nsent, nsentall, sentseq, lastid, connack_sp, connack_code, nnodup, npubq, npublish, pubmsg, puback, nsubscribe, nunsubscribe, ptok, stok, dtok, nclose, tdying[c.tomb], stry, ptry
+//@   modifies c.will, c.state, saved, nsent, nsentall, sentseq, lastid, connack_sp, connack_code, nnodup, npubq, npublish, pubmsg, puback, nsubscribe, nunsubscribe, ptok, stok, dtok, nclose, tdying[c.tomb], stry, ptry, storedobj
 //
 // processSubscribe: the SUBACK released through the backend's ack carries the
 // request's id and one return code per requested filter, in request order.
@@ -407,7 +411,7 @@ package broker
 //@   ensures [connect-first] nauth == old(nauth) ==> nsentall == old(nsentall) && nsetup == old(nsetup) && npublish == old(npublish) && nsubscribe == old(nsubscribe) && nunsubscribe == old(nunsubscribe) && saved == old(saved) && c.will == old(c.will) && c.state == old(c.state)
 //@   ensures [accept-first] nsetup == old(nsetup) ==> npublish == old(npublish) && nsubscribe == old(nsubscribe) && nunsubscribe == old(nunsubscribe) && saved == old(saved) && c.will == old(c.will) && nsentall <= old(nsentall) + 1
 //@   ensures [one-connack] nsent[2] <= 1
-//@   modifies c.id, c.state, c.session, c.will, c.MaximumKeepAlive, c.ParallelPublishes, c.ParallelSubscribes, c.InflightMessages, c.TokenTimeout, c.PacketCallback, c.Ref, c.publishTokens, c.subscribeTokens, c.dequeueTokens, c.ackQueue, any(packet.Publish.Dup), nauth, authok, nsetup, setup_resumed, nrestore, nall, saved, nsent, nsentall, sentseq, lastid, connack_sp, connack_code, nnodup, npubq, npublish, pubmsg, puback, nsubscribe, nunsubscribe, dtok, dtry, ptok, stok, nclose, tdying[c.tomb], tstarted[c.tomb], stry, ptry
+//@   modifies c.id, c.state, c.session, c.will, c.MaximumKeepAlive, c.ParallelPublishes, c.ParallelSubscribes, c.InflightMessages, c.TokenTimeout, c.PacketCallback, c.Ref, c.publishTokens, c.subscribeTokens, c.dequeueTokens, c.ackQueue, any(packet.Publish.Dup), nauth, authok, nsetup, setup_resumed, nrestore, nall, saved, nsent, nsentall, sentseq, lastid, connack_sp, connack_code, nnodup, npubq, npublish, pubmsg, puback, nsubscribe, nunsubscribe, dtok, dtry, ptok, stok, nclose, tdying[c.tomb], tstarted[c.tomb], stry, ptry, storedobj
 //@   loop 1 invariant [serving] connected(c) && incoming_ok() && nauth == old(nauth) + 1 && nsetup == old(nsetup) + 1 && nsent[2] == 1
 //
 //@ func NewClient(backend Backend, conn transport.Conn) (c *Client)
